@@ -203,6 +203,8 @@ def auth_on_connected(self: Obj("YowAuthenticationProtocolLayer"), event: Obj("Y
     ensures(n_events("broadcastEvent") == 1 and event_arg("broadcastEvent", 0).name == E_AUTH
             and same_obj(map_get(event_arg("broadcastEvent", 0).args, "passive"), event_result("getProp", 0))
             and not event_arg("broadcastEvent", 0).detached)
+    # the passive flag is the stack property of that name, NOT passive unless the application asked for it
+    ensures(event_arg("getProp", 0, 0) == "org.openwhatsapp.yowsup.prop.auth.passive" and event_arg("getProp", 0, 1) == False)
     ensures(n_events("toUpper") == 0 and n_events("toLower") == 0)
     propagates("broadcastEvent")
 
@@ -251,7 +253,8 @@ def onStreamError(self: Obj("YowInterfaceLayer"), streamErrorEntity: Opaque("str
     # delivered to the application, then the connection is closed ...
     ensures(n_events("toUpper") == 1 and same_obj(event_arg("toUpper", 0), streamErrorEntity))
     ensures(n_events("broadcastEvent") == 1 and event_arg("broadcastEvent", 0).name == E_DISCONNECT)
-    # ... and a reconnect is scheduled iff the option is on and the error is not a sign-in conflict
+    # ... and a reconnect is scheduled iff the option (default: ON) is on and the error is not a sign-in conflict
+    ensures(event_arg("getProp", 0, 0) == "org.openwhatsapp.yowsup.prop.interface.reconnect_on_stream_error" and event_arg("getProp", 0, 1) == True)
     ensures(implies(truthy(event_result("getProp", 0)) and getter("streamerror.getErrorType", streamErrorEntity) != "conflict",
                     self.reconnect == True))
     ensures(implies(not (truthy(event_result("getProp", 0)) and getter("streamerror.getErrorType", streamErrorEntity) != "conflict"),
